@@ -35,7 +35,8 @@ func VerifNewLowMemPool(capacity int) VerifPool          { return verifPool{newL
 // monitored pool decorator: the harness sees every get/back of the pipeline's pool.
 type VerifPoolMonitor interface {
 	Got(e *Event)
-	Back(e *Event)
+	Back(e *Event)     // before the event is handed back
+	BackDone(e *Event) // after the pool has taken it
 }
 
 type monitoredPool struct {
@@ -44,7 +45,7 @@ type monitoredPool struct {
 }
 
 func (m *monitoredPool) get(size int) *Event { e := m.inner.get(size); m.mon.Got(e); return e }
-func (m *monitoredPool) back(e *Event)       { m.mon.Back(e); m.inner.back(e) }
+func (m *monitoredPool) back(e *Event)       { m.mon.Back(e); m.inner.back(e); m.mon.BackDone(e) }
 func (m *monitoredPool) dump() string        { return m.inner.dump() }
 func (m *monitoredPool) inUse() int64        { return m.inner.inUse() }
 func (m *monitoredPool) waiters() int64      { return m.inner.waiters() }
